@@ -571,6 +571,10 @@ func (r *runner) crashRun(k, j int, nested []uint32, neg string, negArg uint32) 
 		}
 		first.Force = true
 		err, frep := r.dump(ctx, stor.Build(r.w.DB), targets, "simdb", first, simos.Plan{Log: true})
+		// options are built afresh for every call: a custom scrub configuration is an io.Reader that the
+		// previous call has consumed
+		first = r.opts(false)
+		first.Force = true
 		if err != nil {
 			return "oracle:dump_failed", "fault-free forced re-dump over a complete dump returned " + err.Error()
 		}
